@@ -76,7 +76,7 @@ BINOPS = ["add", "sub", "mul", "lt", "ge", "eq", "ne", "floordiv", "mod"]
 
 
 class Gen:
-    def __init__(self, rng, depth=0, max_depth=2, allow_flags=True, nparams=None, nsites=None, p_sub=0.2, p_param_ret=0.1, focus=None, first_ptype=None):
+    def __init__(self, rng, depth=0, max_depth=2, allow_flags=True, nparams=None, nsites=None, p_sub=0.2, p_param_ret=0.1, focus=None, first_ptype=None, p_debug=0.0):
         self.rng = rng
         self.depth = depth
         self.max_depth = max_depth
@@ -84,6 +84,7 @@ class Gen:
         self.p_sub = p_sub
         self.p_param_ret = p_param_ret
         self.first_ptype = first_ptype
+        self.p_debug = p_debug     # share of DAGs (at every nesting level) that end with one or two debug call sites
         self.focus = focus        # "flagged-sub": the first call site is a flagged nested DAG that hands a default straight back
         self.nparams = rng.randint(0, 3) if nparams is None else nparams
         self.nsites = rng.randint(1, 6) if nsites is None else nsites
@@ -123,6 +124,12 @@ class Gen:
             self.seed_indexed_pair()
         for _ in range(self.nsites):
             self.add_site()
+        if rng.random() < self.p_debug and self.sites:
+            # debug call sites: they read results, nothing reads them (a non-debug node may not depend on one), they are not
+            # returned.  They run in a whole-DAG call when RUN_DEBUG_NODES is on (and the DAG they belong to is active)
+            for _ in range(rng.randint(1, 2)):
+                self.sites.append({"kind": "call", "fn": "mix", "args": [self.unique_const()] + [self.any_ref() for _ in range(rng.randint(1, 2))],
+                                   "kw": [], "active": r_none(), "unpack": 0, "sub": 0, "setup": False, "debug": True})
         ret = self.gen_ret()
         if self.focus == "indexed-arg-sub" and self.depth == 0 and len(self.sites) >= 3 and self.sites[2]["kind"] == "sub":
             # what the nested DAG computed from its indexed parameter must be visible in the returned value
@@ -190,11 +197,28 @@ class Gen:
         if rng.random() < (0.12 if self.depth == 0 else 0.08):
             # a setup call site: constants and results of other setup sites only; computed once per DAG object
             site["setup"] = True
-            site["args"] = [self.unique_const()] + [rng.choice(self.setups) if self.setups and rng.random() < 0.6 else r_const(rng.choice(INT_VALUES))
-                                                    for _ in range(rng.randint(0, 2))]
-            self.setups += [r_site(j), r_site(j, [key_i(0)])]
-            self.anys += [r_site(j), r_site(j, [key_i(0)])]
-            self.ints.append(r_site(j, [key_i(0)]))
+            pick = lambda: rng.choice(self.setups) if self.setups and rng.random() < 0.6 else r_const(rng.choice(INT_VALUES))  # noqa: E731
+            kind = rng.random()
+            if kind < 0.25:
+                # a setup result that is a mutable object (a list / a dict) the DAG keeps between calls: operators applied to
+                # it in the body (also the augmented ones, r += x) never change what the next call sees
+                site["fn"] = "mklist"
+                site["args"] = [self.unique_const(), pick(), pick()]
+                self.setups += [r_site(j), r_site(j, [key_i(2)])]
+                self.anys += [r_site(j), r_site(j, [key_i(2)])]
+                self.ints.append(r_site(j, [key_i(2)]))
+                self.typed["l"].append(r_site(j))
+            elif kind < 0.4:
+                site["fn"] = "mkdict"
+                site["args"] = [self.unique_const(), pick()]
+                self.setups += [r_site(j), r_site(j, [key_s("a")])]
+                self.anys += [r_site(j), r_site(j, [key_s("a")]), r_site(j, [key_s("b")])]
+                self.typed["d"].append(r_site(j))
+            else:
+                site["args"] = [self.unique_const()] + [pick() for _ in range(rng.randint(0, 2))]
+                self.setups += [r_site(j), r_site(j, [key_i(0)])]
+                self.anys += [r_site(j), r_site(j, [key_i(0)])]
+                self.ints.append(r_site(j, [key_i(0)]))
             self.sites.append(site)
             return
         flag = self.maybe_flag()          # drawn first: a site can not refer to itself
@@ -216,7 +240,8 @@ class Gen:
                     a, b = b, a          # reflected form: the literal on the left
                 op = "bor" if k == "d" else "add"
                 site["kind"], site["fn"], site["args"] = "op", op, [a, b]
-                site["aug"] = a["c"] != "const" and rng.random() < 0.3
+                kept = a["c"] == "site" and not a["path"] and self.sites[a["n"] - 1].get("setup")
+                site["aug"] = a["c"] != "const" and rng.random() < (0.8 if kept else 0.3)
                 self.typed[k].append(r_site(j))
                 self.anys.append(r_site(j))
             else:
@@ -354,13 +379,13 @@ class Gen:
             ppr = 0.4 if want_flag else 0.1
             g = Gen(rng, self.depth + 1, self.max_depth, allow_flags=not want_flag and self.allow_flags,
                     nparams=rng.randint(0, 3) if pair_arg is None else rng.randint(1, 2), nsites=rng.randint(1, 4), p_sub=self.p_sub, p_param_ret=ppr,
-                    first_ptype="pair" if pair_arg is not None else None)
+                    first_ptype="pair" if pair_arg is not None else None, p_debug=self.p_debug)
             Q = g.gen()
             tries = 0
             while Q["ret"] is None and tries < 20:
                 g = Gen(rng, self.depth + 1, self.max_depth, allow_flags=not want_flag and self.allow_flags,
                         nparams=rng.randint(0, 3) if pair_arg is None else rng.randint(1, 2), nsites=rng.randint(1, 4), p_sub=self.p_sub, p_param_ret=ppr,
-                        first_ptype="pair" if pair_arg is not None else None)
+                        first_ptype="pair" if pair_arg is not None else None, p_debug=self.p_debug)
                 Q = g.gen()
                 tries += 1
             if Q["ret"] is None:
@@ -470,8 +495,15 @@ def gen_args(P, rng, how="random"):
     return out
 
 
-def strip(P):
-    """Remove the generator's private fields (TLC reads the rest)."""
+def strip(P, dbg=True):
+    """Remove the generator's private fields (TLC reads the rest).  dbg=False: the variant of the program that describes a
+    run with RUN_DEBUG_NODES off - a debug call site is then a call site that is switched off (nothing reads its result)."""
     Q = {k: v for k, v in P.items() if not k.startswith("_") and k != "ptypes"}
-    Q["subs"] = [strip(s) for s in P["subs"]]
+    Q["sites"] = [dict(s, debug=bool(s.get("debug")), active=r_const(False) if s.get("debug") and not dbg else s["active"])
+                  for s in P["sites"]]
+    Q["subs"] = [strip(s, dbg) for s in P["subs"]]
     return Q
+
+
+def has_debug(P):
+    return any(s.get("debug") for s in P["sites"]) or any(has_debug(Q) for Q in P["subs"])
